@@ -1,6 +1,6 @@
 PROP = {
     "level": "proof",
-    "legs": ["c19-escape", "c19-literal"],
+    "legs": ["c19-escape", "c19-literal", "c19-parse"],
     "trusted_base": TB_COMMON + ["oracles unicode.IsPrint and syntax.IsWordChar: universally quantified in the theorem; the single hypothesis (metacharacters are not word characters) is checked against the running Go toolchain by leg c19-escape"],
     "assumptions": ASSUME_COMMON + [
         "modelled: syntax/escape.go Escape/escape/Unescape and parser.go scanCharEscape/scanHex/scanHexUntilBrace/scanOctal/scanControl under the zero-option parser Unescape uses",
